@@ -30,6 +30,7 @@ type simSock struct {
 	wdl         time.Time // write deadline
 	failWrites  bool      // WriteTo returns (0, error): e.g. ENOBUFS / EPERM from the kernel
 	closeErr    bool      // Close returns an error
+	closeDelay  time.Duration // Close takes this long (a slow teardown widens the window in which Close is in progress)
 	closeStuck  bool      // Close returns an error and does not release a pending read (only a deadline does)
 	rdl         time.Time // read deadline
 	rdlCh       chan struct{}
@@ -127,6 +128,9 @@ func (s *simSock) WriteTo(b []byte, addr net.Addr) (int, error) {
 }
 
 func (s *simSock) Close() error {
+	if s.closeDelay > 0 {
+		time.Sleep(s.closeDelay)
+	}
 	s.mu.Lock()
 	defer s.mu.Unlock()
 	if s.closeStuck {
